@@ -60,19 +60,33 @@ Proof.
 Qed.
 
 (* ---------- updN / nthN ---------- *)
+Lemma upd_nat_oob0 {A} (f : A -> A) : forall (l : list A) i, (length l <= i)%nat -> upd_nat l i f = l.
+Proof.
+  induction l as [|x l IH]; intros [|i] H; cbn [upd_nat length] in *; try reflexivity; try lia.
+  f_equal. apply IH. lia.
+Qed.
+(* the guarded definitions of Spec/Helpers.v are the plain list functions *)
+Lemma nthN_nth_error {A} (l : list A) i : nthN l i = nth_error l (N.to_nat i).
+Proof.
+  unfold nthN. destruct (N.ltb_spec i (N.of_nat (length l))); [reflexivity|]. symmetry. apply nth_error_None. lia.
+Qed.
+Lemma updN_upd_nat {A} (l : list A) i (f : A -> A) : updN l i f = upd_nat l (N.to_nat i) f.
+Proof.
+  unfold updN. destruct (N.ltb_spec i (N.of_nat (length l))); [reflexivity|]. symmetry. apply upd_nat_oob0. lia.
+Qed.
 Lemma upd_nat_length {A} (f : A -> A) : forall (l : list A) i, length (upd_nat l i f) = length l.
 Proof. induction l as [|x l IH]; intros [|i]; cbn [upd_nat length]; auto. Qed.
 Lemma updN_length {A} (l : list A) i (f : A -> A) : length (updN l i f) = length l.
-Proof. apply upd_nat_length. Qed.
+Proof. rewrite updN_upd_nat. apply upd_nat_length. Qed.
 Lemma upd_nat_app {A} (f : A -> A) : forall (pre : list A) x post,
   upd_nat (pre ++ x :: post) (length pre) f = pre ++ f x :: post.
 Proof. induction pre as [|y pre IH]; intros x post; cbn [app length upd_nat]; [reflexivity|]. f_equal. apply IH. Qed.
 Lemma updN_app {A} (f : A -> A) (pre : list A) x post :
   updN (pre ++ x :: post) (N.of_nat (length pre)) f = pre ++ f x :: post.
-Proof. unfold updN. rewrite Nnat.Nat2N.id. apply upd_nat_app. Qed.
+Proof. rewrite updN_upd_nat, Nnat.Nat2N.id. apply upd_nat_app. Qed.
 Lemma nthN_app {A} (pre : list A) x post : nthN (pre ++ x :: post) (N.of_nat (length pre)) = Some x.
 Proof.
-  unfold nthN. rewrite Nnat.Nat2N.id. rewrite nth_error_app2 by lia. rewrite Nat.sub_diag. reflexivity.
+  rewrite nthN_nth_error, Nnat.Nat2N.id. rewrite nth_error_app2 by lia. rewrite Nat.sub_diag. reflexivity.
 Qed.
 Lemma upd_nat_oob {A} (f : A -> A) : forall (l : list A) i, (length l <= i)%nat -> upd_nat l i f = l.
 Proof.
